@@ -215,6 +215,12 @@ func runParent(prop, tier string) int {
 		return 3
 	}
 	defer os.RemoveAll(work)
+	shardBase := work
+	if shm := os.Getenv("VERIF_SHM"); shm != "" {
+		shardBase = filepath.Join(shm, filepath.Base(work))
+		os.MkdirAll(shardBase, 0o755)
+		defer os.RemoveAll(shardBase)
+	}
 	n := runtime.NumCPU()
 	if v := os.Getenv("VERIF_WORKERS"); v != "" {
 		n, _ = strconv.Atoi(v)
@@ -238,7 +244,7 @@ func runParent(prop, tier string) int {
 			var eb bytes.Buffer
 			cmd.Stderr = &eb
 			cmd.Stdout = &eb
-			cmd.Env = append(os.Environ(), "VERIF_SHARD_DIR="+filepath.Join(work, fmt.Sprintf("d%d", i)))
+			cmd.Env = append(os.Environ(), "VERIF_SHARD_DIR="+filepath.Join(shardBase, fmt.Sprintf("d%d", i)))
 			err := cmd.Run()
 			stderrs[i] = eb.String()
 			if err != nil {
@@ -268,7 +274,7 @@ func runParent(prop, tier string) int {
 		cmd := exec.Command(self, "worker", prop, tier, strconv.Itoa(i), strconv.Itoa(n), out, tr)
 		var eb bytes.Buffer
 		cmd.Stderr = &eb
-		cmd.Env = append(os.Environ(), "VERIF_SHARD_DIR="+filepath.Join(work, fmt.Sprintf("d%d", i)))
+		cmd.Env = append(os.Environ(), "VERIF_SHARD_DIR="+filepath.Join(shardBase, fmt.Sprintf("d%d", i)))
 		err := cmd.Run()
 		if err == nil {
 			// did not die again: not reproducible, treat as harness trouble, not as an alarm
@@ -388,7 +394,7 @@ func runParent(prop, tier string) int {
 		const tries = 5
 		for k := 0; k < tries; k++ {
 			cmd := exec.Command(self, "replay", rp)
-			cmd.Env = append(os.Environ(), "VERIF_SHARD_DIR="+filepath.Join(work, "confirm"))
+			cmd.Env = append(os.Environ(), "VERIF_SHARD_DIR="+filepath.Join(shardBase, "confirm"))
 			err := cmd.Run()
 			if err != nil { // exit 1 = reproduced; a crash also counts for fatal signatures
 				repro++
